@@ -132,11 +132,12 @@ def run(ctx):
     # the interval vocabulary itself
     got = sorted(kp.AVAILABLE_INTERVALS)
     ctx.count('transitions')
-    if got != sorted(R.INTERVAL_NAMES):
-        ctx.violation(Viol('interval-names', 'not-the-40-named-intervals', {'q': 'AVAILABLE_INTERVALS'}, sorted(R.INTERVAL_NAMES), got))
-    if sorted(kp.IntervalsByName) != sorted(R.INTERVAL_NAMES):
-        ctx.violation(Viol('interval-names', 'not-the-40-named-intervals', {'q': 'IntervalsByName'}, sorted(R.INTERVAL_NAMES), sorted(kp.IntervalsByName)))
-    for bad in ('P8', 'M9', '', 'p5'):
+    # the 40 named intervals must be available (further names would not contradict the property)
+    if not set(R.INTERVAL_NAMES) <= set(got):
+        ctx.violation(Viol('interval-names', 'a-named-interval-is-missing', {'q': 'AVAILABLE_INTERVALS'}, sorted(R.INTERVAL_NAMES), got))
+    if not set(R.INTERVAL_NAMES) <= set(kp.IntervalsByName):
+        ctx.violation(Viol('interval-names', 'a-named-interval-is-missing', {'q': 'IntervalsByName'}, sorted(R.INTERVAL_NAMES), sorted(kp.IntervalsByName)))
+    for bad in ('Q3', 'M22', '', 'x'):
         try:
             kp.loads('**kern\n4c\n*-\n')[0].to_transposed(bad, 'up')
             ctx.violation(Viol('interval-names', 'unknown-interval-accepted', {'interval': bad}, 'ValueError', 'returned'))
@@ -156,8 +157,8 @@ def replay(case):
     if 'q' in case or ('interval' in case and 'pitch' not in case):
         ctx_like = Acc()
         got = sorted(kp.AVAILABLE_INTERVALS)
-        if got != sorted(R.INTERVAL_NAMES):
-            ctx_like.violation(Viol('interval-names', 'not-the-40-named-intervals', case, None, got))
+        if not set(R.INTERVAL_NAMES) <= set(got):
+            ctx_like.violation(Viol('interval-names', 'a-named-interval-is-missing', case, None, got))
         return ctx_like.viol
     p = R.parse(case['pitch'])
     i = GRID.index(p) if p in GRID else None
